@@ -497,9 +497,11 @@ type VerifLRU struct{ c *LRUCache }
 
 func VerifNewLRU(cap int) *VerifLRU { return &VerifLRU{NewLRU(cap)} }
 
-// Set stores a fresh node (identified by id, with the given dirty flag).
+// Set stores a fresh node (identified by id, with the given dirty flag). The
+// nodes are of both kinds - what the cache does must not depend on what a
+// page holds.
 func (v *VerifLRU) Set(key, id uint64, dirty bool) bool {
-	return v.c.set(key, &btreeNode{fileOffset: id, dirty: dirty})
+	return v.c.set(key, &btreeNode{fileOffset: id, dirty: dirty, isLeaf: id%3 != 0})
 }
 
 func (v *VerifLRU) Get(key uint64) (id uint64, dirty, ok bool) {
